@@ -87,7 +87,10 @@ def attribute(script, toks, item):
 def run(c):
     c.rule = ("scripts as in C21 (1..3 import calls, body over create/poll/await/drop/suspend/yield, host directives "
               "advance/deliver, task cancel when directives run out) plus task switches `t1`/`t2` between two harness tasks "
-              "in the cabi1 (v1 ABI) and cabi2 (v2 ABI) modes, and the real executor (export); non-trivial = an operation "
+              "in the cabi1 (v1 ABI) and cabi2 (v2 ABI) modes, and the real executor (export); 40 % of the cabi scripts are "
+              "directed schedules (rtlib.gen_move_script): partial progress that keeps the operation pending (STARTING -> STARTED "
+              "event; the only operation kind with a non-final event code is the subtask) x re-registration with the same task x "
+              "poll/drop under the other task (also back and forth) x completion / cancel / drop / task cancel; non-trivial = an operation "
               "was registered (reg/join) at least once; distinct by normalised trace")
     rc, out = sh(["python3", os.path.join(VERIF, "tools", "gen_limits.py")])
     c.cov["translator"] = out.strip()
@@ -110,7 +113,10 @@ def run(c):
     for _ in range(n):
         r = c.rng.random()
         mode = "cabi2" if r < 0.45 else "cabi1" if r < 0.75 else "export"
-        reqs.append(rtlib.gen_subtask_script(c.rng, mode, 3, maxbody, stats, tasks=True))
+        if mode != "export" and c.rng.random() < 0.4:
+            reqs.append(rtlib.gen_move_script(c.rng, mode, stats))      # directed: progress x re-register x move x end
+        else:
+            reqs.append(rtlib.gen_subtask_script(c.rng, mode, 3, maxbody, stats, tasks=True))
     if not impl or not model:
         return
     # (a script that aborts the process is re-run alone in streaming mode: its trace prefix is not lost)
